@@ -20,7 +20,8 @@ def main(argv):
         return 2
     seed = seed_from_env()
     try:
-        mod = importlib.import_module("vcheck.props." + pid.lower())
+        # X.. = extension checks: parts of the specification beyond the listed properties (DESIGN.md section 15)
+        mod = importlib.import_module(("vcheck.extras." if pid.startswith("X") else "vcheck.props.") + pid.lower())
     except ImportError as e:
         print("no check for %s: %s" % (pid, e), file=sys.stderr)
         return 2
